@@ -46,6 +46,9 @@ def run(tier, seed):
         for k in ("rng_stream_checked", "rollbacks", "silent_executions", "end_state_compared", "remote_events_sent"):
             if hc.counters_nz(m, k) == 0:
                 raise vc.EngineError(f"vacuous: no execution with '{k}'")
+    # the library keeps no state outside the LP: one complete call of another LP injected between and inside the calls of an LP
+    lrep, ltot, lviol = hc.libstate_part(PID, d)
+    viol += lviol
     n = vc.triage(PID, viol)
     cov = hc.coverage_from(m, reps, "silent_executions",
                            "7 models, one per library distribution (RandomU64, Random, Expent, Normal, Gamma, Zipf, RandomRange; every event "
@@ -54,6 +57,10 @@ def run(tier, seed):
                            "with the same reference execution: first four raw draws of every LP at LP_INIT (stream = f(seed, LP id)), every "
                            "committed state hash (which contains the generator state), the state after every rollback and every silent "
                            "re-execution (replay of the stream), the end state; non-trivial = execution with >= 1 coast-forward event")
+    cov["library_hidden_state"] = {"evaluations": ltot["evaluations"], "hidden_state_accesses": lrep.get("hidden_state_accesses"),
+                                   "calls": lrep.get("calls"), "samples": ltot["samples"][:2]}
+    cov["evaluations"] += ltot["evaluations"]
+    cov["rule"] += "; " + hc.LIBSTATE_RULE
     vc.write_evidence(PID, tier, "model_checking", cov,
                       ["core binding only calls thread_affinity_set, which is replaced in verification builds",
                        "one seed (4242); the seed enters only through random_lib_lp_init, which C18/refexec exercise separately"],
@@ -63,5 +70,12 @@ def run(tier, seed):
 
 def replay(path):
     d = vc.fresh_dir(PID + "_replay")
+    if path.endswith(".json"):
+        import json
+        r = json.load(open(path))
+        rep = vc.run_seqx(hc.build_libstate(d), r["args"])
+        hit = [v for v in rep["violations"] if v["signature"] == r["signature"]]
+        print(json.dumps(hit[:1] or "not reproduced", indent=1))
+        return 1 if hit else 0
     ranks = 2 if "_r2" in os.path.basename(path) else 1
     return vc.rsched_replay(hc.build(d, ranks=ranks), path)
